@@ -543,7 +543,7 @@ func (e *Engine) solveAll(want func(*Obligation) bool, quickMs, slowMs int, work
 	ch := make(chan *job)
 	var mu sync.Mutex
 	failedNames := map[string]int{}
-	retrySem := make(chan struct{}, 6)
+	retrySem := make(chan struct{}, 3)
 	for w := 0; w < workers; w++ {
 		wg.Add(1)
 		go func() {
@@ -732,7 +732,7 @@ func (e *Engine) retryOne(lines []Line, ob *Obligation, slowMs int, scratch stri
 		var pmu sync.Mutex
 		var pwg sync.WaitGroup
 		t0 := time.Now()
-		sem := make(chan struct{}, 4)
+		sem := make(chan struct{}, 2)
 		for _, seg := range parts[1:] {
 			body := seg
 			if i := strings.Index(body, "(pop 1)"); i >= 0 {
@@ -756,26 +756,36 @@ func (e *Engine) retryOne(lines []Line, ob *Obligation, slowMs int, scratch stri
 					}
 					return "unknown"
 				}
-				budgets := []int{2500, 2500, 2500, 2500, 2500, 2500, slowMs / 2}
-				for attempt, ms := range budgets {
-					qq := q
-					if attempt > 0 {
-						qq = fmt.Sprintf("(set-option :smt.random_seed %d)\n(set-option :sat.random_seed %d)\n", attempt, attempt) + q
-					}
-					res := make(chan string, 2)
-					for _, sv := range solvers[:2] {
-						go func(sv solverSpec) {
-							out, _ := runSolver(sv, qq, ms, time.Duration(ms+3000)*time.Millisecond)
-							res <- first(out)
-						}(sv)
-					}
-					a1 := <-res
-					if a1 != "unsat" {
-						if a2 := <-res; a2 == "unsat" || a1 == "unknown" {
-							a1 = a2
+				// waves of three seeds on both solvers at once; the first definite answer wins
+				type wave struct {
+					seeds []int
+					ms    int
+				}
+				waves := []wave{{[]int{0, 1, 2}, 2500}, {[]int{3, 4, 5}, 2500}, {[]int{6, 7, 8}, 3500}, {[]int{9}, slowMs / 2}}
+				for _, w := range waves {
+					res := make(chan string, 2*len(w.seeds))
+					for _, seed := range w.seeds {
+						qq := q
+						if seed > 0 {
+							qq = fmt.Sprintf("(set-option :smt.random_seed %d)\n(set-option :sat.random_seed %d)\n", seed, seed) + q
+						}
+						for _, sv := range solvers[:2] {
+							go func(sv solverSpec, qq string) {
+								out, _ := runSolver(sv, qq, w.ms, time.Duration(w.ms+3000)*time.Millisecond)
+								res <- first(out)
+							}(sv, qq)
 						}
 					}
-					ans = a1
+					ans = "unknown"
+					for k := 0; k < 2*len(w.seeds); k++ {
+						a := <-res
+						if a == "unsat" || (a == "sat" && ans != "unsat") {
+							ans = a
+						}
+						if ans == "unsat" {
+							break // (the other runs of the wave end at their time limit)
+						}
+					}
 					if ans == "unsat" || ans == "sat" {
 						break
 					}
